@@ -6,6 +6,8 @@
 -/
 import ModVerif.Model.Modfile.Work
 import ModVerif.Proofs.ModfilePrint
+import ModVerif.Proofs.ModfileFmtConserve
+import ModVerif.Proofs.ModfileFmtQuoteUnquote
 namespace ModVerif.Props.C02
 open ModVerif ModVerif.Modfile
 
@@ -65,5 +67,227 @@ example :
                                     f.retract.map (·.interval) = [{ low := B "v1.0.0", high := B "v1.1.0" }])
                  | .error _ => false)
      | .error _ => false) = true := by decide +kernel
+
+/-! ### Stage 1 — tokens (DESIGN §6 C02 (i)–(iii)) -/
+
+open Proofs.ModfileFmtLex Proofs.ModfileFmtLine Proofs.ModfileFmtTok in
+/-- ★ `lex_emits_TokOK` (stage (i)): whatever `readToken` delivers is the end of the input, a newline, a
+    comment text (`//…` without newline), or a line token that is `TokOK` for the delivered kind: one
+    punctuation byte; a quoted string closed by its quote (a backslash escapes the next rune in `"…"`); or a
+    non-empty identifier all of whose runes are `isIdent`, with no `//` or `/*` at a rune boundary and not
+    starting with a quote. -/
+theorem lex_emits_TokOK (i i' : Input) (h : readToken i = .ok i') : LexOK i'.token.kind i'.token.text :=
+  lex_emits_LexOK i i' h
+
+example : (match readToken (newInput (B "require (")) with
+    | .ok i' => decide (i'.token.text = B "require" ∧ i'.token.kind = .ident)
+    | .error _ => false) = true := by decide +kernel
+
+open Proofs.ModfileFmtLex Proofs.ModfileFmtLine Proofs.ModfileFmtTok in
+/-- ★ `relex_one` (stage (ii)): a `TokOK` token, preceded by blanks (space, tab, CR) and followed by the end
+    of the input, a blank, a newline or a punctuation byte (no condition after a punctuation token), is
+    lexed by `readToken` as itself — same kind, same text — and exactly the blanks and the token are
+    consumed; no comment is recorded. -/
+theorem relex_one {k : TokKind} {t : Bytes} (hk : TokOK k t) (ws rest : Bytes)
+    (hws : ∀ b ∈ ws, isBlank b = true) (hrest : DelimStart rest ∨ ∃ c, k = .punct c)
+    (i : Input) (hi : i.remaining = ws ++ (t ++ rest)) :
+    ∃ i', readToken i = .ok i' ∧ i'.token.kind = k ∧ i'.token.text = t ∧ i'.remaining = rest ∧
+      i'.consumedRev = (ws ++ t).reverse ++ i.consumedRev ∧
+      i'.commentsRev = i.commentsRev ∧ i'.nextId = i.nextId :=
+  Proofs.ModfileFmtLex.relex_one hk ws rest hws hrest i hi
+
+/-- non-vacuity: the punctuation token `(` after a blank, followed by anything -/
+example : ∃ i', readToken (newInput (B " (x")) = .ok i' ∧ i'.token.text = [40] ∧ i'.remaining = B "x" := by
+  obtain ⟨i', h1, _, h3, h4, _⟩ := relex_one (Proofs.ModfileFmtLex.TokOK.punct 40 (by decide)) [32] (B "x")
+    (by decide) (Or.inr ⟨40, rfl⟩) (newInput (B " (x")) (by decide +kernel)
+  exact ⟨i', h1, h3, h4⟩
+
+open Proofs.ModfileFmtLex Proofs.ModfileFmtLine Proofs.ModfileFmtTok in
+/-- ★ `tokens_relex` (stage (iii)): the bytes `Printer.tokens` writes for a non-empty list of line tokens
+    (every text `TokOK` for the kind it determines), followed by a delimiter — in `Format`'s output a
+    newline or ` (` —, are lexed by `ts.length` calls of `readToken` into exactly the same texts with the
+    kinds the texts determine, and exactly the printed bytes are consumed.  (The separator is empty only
+    next to punctuation, which is why adjacent tokens never fuse.) -/
+theorem tokens_relex (ts : List Bytes) (hts : ∀ t ∈ ts, TokText t) (hne : ts ≠ [])
+    (rest : Bytes) (hrest : DelimStart rest) (i : Input)
+    (hi : i.remaining = (Printer.tokens {} ts).bufRev.reverse ++ rest) :
+    ∃ i', lexN ts.length i = .ok (ts.map tk, i') ∧ i'.remaining = rest :=
+  Proofs.ModfileFmtLine.tokens_relex {} ts hts hne rest hrest i (by simpa using hi)
+
+/-- non-vacuity: `retract [v1.0.0, v1.1.0]` is printed as `retract [v1.0.0, v1.1.0]` and lexes back to its
+    six tokens -/
+example :
+    let ts := [B "retract", B "[", B "v1.0.0", B ",", B "v1.1.0", B "]"]
+    (decide ((Printer.tokens {} ts).bufRev.reverse = B "retract [v1.0.0, v1.1.0]") &&
+    (match Proofs.ModfileFmtLine.lexN 6 (newInput (B "retract [v1.0.0, v1.1.0]\n")) with
+     | .ok (l, i') => decide (l.map (·.2) = ts ∧ i'.remaining = B "\n")
+     | .error _ => false)) = true := by decide +kernel
+
+/-! ### Stage 2 — arguments print as one token -/
+
+open Proofs.ModfileFmtLex in
+/-- ★ `autoQuote_single_token`: whatever string the directive layer stores through `AutoQuote` is one
+    `TokOK` token: unquoted it is an identifier (or, for a lone bracket/comma, that punctuation token);
+    otherwise `strconv.Quote` produces a well-formed `"…"` string token. -/
+theorem autoQuote_single_token (s : Bytes) : ∃ k, TokOK k (autoQuote s) :=
+  Proofs.ModfileFmtQuote.autoQuote_single_token s
+
+open Proofs.ModfileFmtLex in
+/-- unquoted arguments other than a lone bracket or comma are identifier tokens -/
+theorem autoQuote_unquoted_ident {s : Bytes} (h : mustQuote s = false) (hp : ∀ c ∈ punctBytes, s ≠ [c]) :
+    TokOK .ident s :=
+  Proofs.ModfileFmtQuote.autoQuote_unquoted_ident h hp
+
+example : mustQuote (B "example.com/m") = false ∧ ∀ c ∈ Proofs.ModfileFmtLex.punctBytes, B "example.com/m" ≠ [c] := by
+  decide +kernel
+
+/-- `strconv.Unquote` inverts `strconv.Quote` on every byte string (valid UTF-8 or not). -/
+theorem unquote_quote (s : Bytes) : Quote.unquote (Quote.quote s) = some s :=
+  Proofs.ModfileFmtQuote.unquote_quote s
+
+/-- ★ `parseString` reads the token `AutoQuote` wrote back to the same value and leaves the token alone —
+    the step that makes directive values survive formatting. -/
+theorem parseString_autoQuote (s : Bytes) : parseString (autoQuote s) = some (s, autoQuote s) :=
+  Proofs.ModfileFmtQuote.parseString_autoQuote s
+
+/-- `parseString` is idempotent on the token it rewrites. -/
+theorem parseString_idem {tok v tok' : Bytes} (h : parseString tok = some (v, tok')) :
+    parseString tok' = some (v, tok') :=
+  Proofs.ModfileFmtQuote.parseString_idem h
+
+example : parseString (B "\"a b\"") = some (B "a b", B "\"a b\"") := by decide +kernel
+
+/-- the `IsPrint`/`IsSpace` table fact stage 2 rests on, by kernel evaluation over the 711-interval table -/
+theorem isPrint_not_space : ∀ r, UnicodePrint.isPrint r = true → UnicodePrint.isSpace r = true → r = 32 :=
+  Proofs.ModfileFmtQuote.isPrint_not_space
+
+/-! ### Stage 3 — comments: `TrimSpace` algebra and whole-line / end-of-line classification -/
+
+/-- `TrimSpace` is idempotent (every byte string), so printing a comment twice prints the same text. -/
+theorem trimSpace_idem (s : Bytes) : GoStrings.trimSpace (GoStrings.trimSpace s) = GoStrings.trimSpace s :=
+  Proofs.ModfileFmtTrim.trimSpace_idem s
+
+open Proofs.ModfileFmtLex in
+/-- a printed comment is still a `//` text without newline, is a prefix of the original, and does not end in
+    a blank, CR or newline — so it is lexed back as exactly itself -/
+theorem trimSpace_comment {c : Bytes} (h : CommentOK c) :
+    (∃ e, c = GoStrings.trimSpace c ++ e ∧ CommentOK (GoStrings.trimSpace c)) ∧
+    ∀ b, (GoStrings.trimSpace c).getLast? = some b → b ≠ 32 ∧ b ≠ 9 ∧ b ≠ 13 ∧ b ≠ 10 :=
+  ⟨Proofs.ModfileFmtTrim.trimSpace_comment h, Proofs.ModfileFmtTrim.trimSpace_comment_last h⟩
+
+example : Proofs.ModfileFmtLex.CommentOK (B "// x \t") := by
+  constructor <;> decide +kernel
+
+open Proofs.ModfileFmtClass in
+/-- ★ classification on the source side: `readToken` preserves the line-prefix invariant; after a line
+    token the current line is `Used`; from a `Used` state a comment is never delivered as a whole-line
+    comment token (it is an end-of-line comment). -/
+theorem comment_classification (j i : Input) (h : readToken j = .ok i) (hj : Inv j) :
+    Inv i ∧ (Used j → i.token.kind ≠ .comment) ∧ (∀ t, Proofs.ModfileFmtLex.TokOK i.token.kind t → Used i) :=
+  readToken_class j i h hj
+
+example (data : Bytes) : Proofs.ModfileFmtClass.Inv (newInput data) := Proofs.ModfileFmtClass.inv_newInput data
+
+/-! ### Stage 3/4 — line → block → file, for inputs without end-of-line comments -/
+
+open Proofs.ModfileFmtTree in
+/-- ★ the shape of every parsed statement list (any input): token texts are `TokOK`, a top-level line does
+    not end in `(` or `( )` in scanning position, no block line starts with `)`, blank-line placeholders obey
+    the parser's rule, whole-line comments are `//` texts, and the parser populates no `suffix`/`after`
+    list. -/
+theorem parseFile_wellShaped (data : Bytes) (stmts : List Expr) (i : Input) (h : parseFile data = .ok (stmts, i)) :
+    WFStmts stmts :=
+  Proofs.ModfileFmtEmits.parseFile_wf data stmts i h
+
+open Proofs.ModfileFmtTree Proofs.ModfileFmtRender in
+/-- ★ what `Format` prints for a well-shaped tree without header comments, as a pure function of the tree
+    (`rStmts`: comment lines, token lines, `verb (`, tab-indented block lines, `)`, one blank line between
+    statements): the printer's `trim` / `newline` / margin / blank-line-suppression machinery computes
+    exactly that. -/
+theorem format_eq_render (f : FileSyntax) (hwf : WFStmts f.stmts) (hc : f.comments.before = []) :
+    format f = rStmts f.stmts :=
+  format_eq_rStmts f hwf hc
+
+open Proofs.ModfileFmtMain Proofs.ModfileFmtConserve in
+/-- conservation of end-of-line comments by `assignComments` (part of stage (vi)): if no `suffix` list of
+    the parsed tree is populated and no comment was left over for the file header (`NoEol t`), then the lexer
+    recorded no end-of-line comment. -/
+theorem noEol_source (name x : Bytes) (t : FileSyntax) (h : parse name x = .ok t) (hno : NoEol t) :
+    eolComments x = [] :=
+  eolComments_nil_of_noEol name x t h hno
+
+open Proofs.ModfileFmtTree Proofs.ModfileFmtConserve in
+/-- ★ `format_parse_syntax_partial` — `format_parse_syntax` for every accepted input WHOSE TREE HAS NO
+    END-OF-LINE COMMENT (`NoEol t`: no `suffix` list populated, no comment left over for the file header;
+    whole-line comments, comment blocks, blank lines in blocks, blocks, the three `(` special cases, quoted
+    strings, CRLF, invalid UTF-8 in identifiers are all covered).  The formatted output parses again, and the
+    new tree is the old one up to positions and line identities with every comment text replaced by its
+    `TrimSpace` — the same statements, tokens and comment texts, in the same places — and again has no
+    end-of-line comment.  What is missing for the full statement: end-of-line comments, whose re-attachment
+    by `assignComments` depends on token positions (line numbers and byte offsets in the formatted text),
+    which the proof does not track yet. -/
+theorem format_parse_syntax_partial (name x : Bytes) (t : FileSyntax) (h : parse name x = .ok t)
+    (hno : NoEol t) : ∃ t', parse name (format t) = .ok t' ∧ eraseFile t' = normFile t ∧ NoEol t' :=
+  format_parse_syntax_noEol name x t h hno
+
+open Proofs.ModfileFmtConserve in
+/-- ★ `format_idempotent_partial` — `format_idempotent` under the same hypothesis. -/
+theorem format_idempotent_partial (name x : Bytes) (t t' : FileSyntax) (h : parse name x = .ok t)
+    (hno : NoEol t) (h' : parse name (format t) = .ok t') : format t' = format t :=
+  format_idempotent_noEol name x t t' h hno h'
+
+/-- non-vacuity of the hypotheses of the theorems above: an accepted file with whole-line comments, a
+    comment block, a block with a blank line and comments before a line and before `)`, a quoted argument
+    and CRLF — whose tree has no end-of-line comment -/
+example :
+    let x := B "// doc\r\nmodule  \"example.com/m\"\n\n// block\n\nrequire (\n\ta.b/c v1.0.0\n\n\t// why\n\td.e/f   v1.2.3\n\t// tail\n)\n"
+    (match parse (B "go.mod") x with
+     | .ok t => decide (t.comments.before = [] ∧ t.stmts.all fun s => match s with
+         | .commentBlock c => c.comments.suffix.isEmpty
+         | .line l => l.comments.suffix.isEmpty
+         | .lineBlock b => b.comments.suffix.isEmpty && b.lparen.comments.suffix.isEmpty &&
+             b.lines.all (·.comments.suffix.isEmpty) && b.rparen.comments.suffix.isEmpty
+         | _ => false)
+     | .error _ => false) = true := by decide +kernel
+
+/-! ### A violation of the idempotence clause (finding) -/
+
+/-- An accepted input on which `Format` is NOT idempotent: the second line holds a quoted string with a
+    backslash-newline (the lexer accepts any rune after a backslash, including a newline), so the line spans
+    two source lines and `assignComments` cannot attach `// c2` to it; the comment moves to the first line,
+    which now has two end-of-line comments.  `Format` prints the second one on a line of its own directly
+    below; on re-parsing it is a whole-line comment followed by a blank line, i.e. a comment block, and the
+    next `Format` separates it from the first line by a blank line. -/
+def c02IdemInput : Bytes := B "a b // c1\nx \"p\\\nq\" // c2\n"
+
+/-- `C02` clause 2 ("formatting that output again changes nothing") fails for `c02IdemInput`: the syntax
+    parser accepts it, the formatted output parses again, and formatting that tree gives different bytes
+    (`a b // c1␤// c2␤␤x …` versus `a b // c1␤␤// c2␤␤x …`).  The real `modfile.Format` behaves identically
+    (checked with `ParseLax`/`Format` of the pinned tree).  Consequently the full `format_idempotent` is
+    false; `format_idempotent_partial` above is the proved fragment. -/
+theorem C02_violated_format_not_idempotent :
+    ∃ t t', parse (B "go.mod") c02IdemInput = .ok t ∧ parse (B "go.mod") (format t) = .ok t' ∧
+      format t' ≠ format t ∧
+      format t = B "a b // c1\n// c2\n\nx \"p\\\nq\"\n" ∧
+      format t' = B "a b // c1\n\n// c2\n\nx \"p\\\nq\"\n" := by
+  have h : (match parse (B "go.mod") c02IdemInput with
+      | .ok t => (match parse (B "go.mod") (format t) with
+          | .ok t' => decide (format t' ≠ format t ∧
+              format t = B "a b // c1\n// c2\n\nx \"p\\\nq\"\n" ∧
+              format t' = B "a b // c1\n\n// c2\n\nx \"p\\\nq\"\n")
+          | .error _ => false)
+      | .error _ => false) = true := by decide +kernel
+  cases h1 : parse (B "go.mod") c02IdemInput with
+  | error e => rw [h1] at h; cases h
+  | ok t =>
+    rw [h1] at h
+    simp only at h
+    cases h2 : parse (B "go.mod") (format t) with
+    | error e => rw [h2] at h; cases h
+    | ok t' =>
+      rw [h2] at h
+      simp only at h
+      have := of_decide_eq_true h
+      exact ⟨t, t', rfl, h2, this⟩
 
 end ModVerif.Props.C02
